@@ -389,6 +389,76 @@ func c14r5(p *Program, r *Report) {
 			r.Bad(fi.Decl, name+" handles UNPREPARED", "no case for *RequestErrUnprepared: a lost prepared statement is never re-prepared")
 		}
 	}
+	// executeBatch finds the statement an UNPREPARED answer names through a map keyed by the prepared id it sent: the
+	// key stored for an entry must be the id returned by prepareStatement for that entry (info.id), or the field it
+	// was copied to before
+	if fi := r.NeedFunc("(*Conn).executeBatch"); fi != nil {
+		info := fi.Pkg.TypesInfo
+		idField := p.Field("preparedStatment", "id")
+		g := p.GraphOf(fi)
+		nstore := 0
+		ast.Inspect(fi.Decl.Body, func(x ast.Node) bool {
+			as, ok := x.(*ast.AssignStmt)
+			if !ok || len(as.Lhs) != 1 || len(as.Rhs) != 1 {
+				return true
+			}
+			ix, ok := ast.Unparen(as.Lhs[0]).(*ast.IndexExpr)
+			if !ok {
+				return true
+			}
+			mt, ok := info.TypeOf(ix.X).Underlying().(*types.Map)
+			if !ok || !strings.HasSuffix(exprStr(as.Rhs[0]), ".Stmt") {
+				return true
+			}
+			if b, isB := mt.Key().Underlying().(*types.Basic); !isB || b.Kind() != types.String {
+				return true
+			}
+			nstore++
+			key := stripAllConv(info, ix.Index)
+			okKey := false
+			why := exprStr(key)
+			if fv := fieldOf(info, key); fv != nil && fv == idField {
+				okKey = true
+			} else if fv != nil {
+				// another field: it must have received the prepared id before, on every path
+				ef := g.Events(func(st Step) []string {
+					if st.Kind != StNode {
+						return nil
+					}
+					if a2, ok := st.Node.(*ast.AssignStmt); ok && len(a2.Lhs) == len(a2.Rhs) {
+						for i, l := range a2.Lhs {
+							if exprStr(ast.Unparen(l)) == exprStr(key) {
+								if rf := fieldOf(info, a2.Rhs[i]); rf != nil && rf == idField {
+									return []string{"copied"}
+								}
+								return []string{"overwritten"}
+							}
+						}
+					}
+					return nil
+				})
+				if s, ok := ef.Sol.Before(as); ok && s.Must["copied"] && s.Max["overwritten"] == 0 {
+					// the copy happened in this iteration: the statement that copies precedes the store in the same block
+					okKey = false
+					if i, list := p.stmtIndex(as); i >= 0 {
+						for _, prev := range list[:i] {
+							if a2, ok := prev.(*ast.AssignStmt); ok && len(a2.Lhs) == 1 && exprStr(ast.Unparen(a2.Lhs[0])) == exprStr(key) {
+								if rf := fieldOf(info, a2.Rhs[0]); rf != nil && rf == idField {
+									okKey = true
+								}
+							}
+						}
+					}
+				}
+			}
+			r.Check(okKey, as, "(*Conn).executeBatch remembers each statement under the prepared id it sends", "stmts[string(info.id)] = entry.Stmt",
+				"the statement text is stored under `"+why+"`, which is not (yet) the id returned by prepareStatement for this entry: when the server answers UNPREPARED the lookup misses, nothing is evicted, and the batch is re-sent with the stale id forever")
+			return true
+		})
+		if nstore == 0 {
+			r.Unresolved("executeBatch: no map from prepared id to statement text")
+		}
+	}
 	if ev := r.NeedFunc("(*preparedLRU).evictPreparedID"); ev != nil {
 		g := p.GraphOf(ev)
 		info := g.Info
